@@ -21,14 +21,14 @@ func init() {
 	core.Register(&core.Check{
 		ID: "C27", Level: "other", Title: "PoW light client keeps the heaviest valid chain",
 		Technique: "guard dominance + value-flow identity on the header-store path",
-		Explain: "eth.SyncBlockHeader: the putBlockHeader call (the only place a non-genesis header is stored) is dominated by: header not yet stored (IsHeaderExist err==nil and false — a known header takes the continue edge, from which no storage-writing call is reachable before the next header: re-submission changes nothing), parent lookup by header.ParentHash err==nil (parent stored), Number == parent.Number+1, parent.Hash() == header.ParentHash, the fail edge of Time <= parent.Time, the gas-limit / EIP-1559 check err==nil, expected-difficulty Cmp == 0 and the seal check verifyHeader err==nil; the total difficulty stored is new(big.Int).Add(header.Difficulty, parentDifficultySum) with parentDifficultySum the second result of that same parent lookup; the canonical index is extended by appendHeader2Main only when current.Hash() == header.ParentHash and re-pointed by RestructChain only under headerDifficultySum.Cmp(currentDifficultySum) > 0 (strictly heavier). BTC: commitHeader stores a header only after the previous-header lookup succeeded and CheckHeader passed, with height = parent height + 1 and totalWork = parent work + own work, and switches best header only on strictly greater work. NOT decided: gap-freeness / maximality of the canonical index after arbitrary histories (needs loop invariants of RestructChain).",
-		Run: runC27,
+		Explain:   "eth.SyncBlockHeader: the putBlockHeader call (the only place a non-genesis header is stored) is dominated by: header not yet stored (IsHeaderExist err==nil and false — a known header takes the continue edge, from which no storage-writing call is reachable before the next header: re-submission changes nothing), parent lookup by header.ParentHash err==nil (parent stored), Number == parent.Number+1, parent.Hash() == header.ParentHash, the fail edge of Time <= parent.Time, the gas-limit / EIP-1559 check err==nil, expected-difficulty Cmp == 0 and the seal check verifyHeader err==nil; the total difficulty stored is new(big.Int).Add(header.Difficulty, parentDifficultySum) with parentDifficultySum the second result of that same parent lookup; the canonical index is extended by appendHeader2Main only when current.Hash() == header.ParentHash and re-pointed by RestructChain only under headerDifficultySum.Cmp(currentDifficultySum) > 0 (strictly heavier). BTC: commitHeader stores a header only after the previous-header lookup succeeded and CheckHeader passed, with height = parent height + 1 and totalWork = parent work + own work, and switches best header only on strictly greater work. NOT decided: gap-freeness / maximality of the canonical index after arbitrary histories (needs loop invariants of RestructChain).",
+		Run:       runC27,
 	})
 	core.Register(&core.Check{
 		ID: "C28", Level: "other", Title: "Ethereum header rules match the Ethereum specification",
 		Technique: "guard dominance (rejection clause) + decision table of the era dispatch",
-		Explain: "Decides ONLY the rejection clause 'a header that violates any of them is rejected': in eth.SyncBlockHeader the header store is dominated by the timestamp, extra-data size, gas-cap, gasUsed<=gasLimit, gas-limit/EIP-1559, difficulty (expected.Cmp(header.Difficulty)==0) and proof-of-work seal checks; VerifyGaslimit returns nil only under |parent−header| < parent/GasLimitBoundDivisor and header >= MinGasLimit; VerifyEip1559Header only under VerifyGaslimit err==nil (with the elasticity multiplier applied exactly when the parent is pre-London), BaseFee != nil and BaseFee.Cmp(CalcBaseFee(parent)) == 0; the seal check verifyHeader fails unless the ethash result is within the target and the mix digest matches. The era dispatch is extracted as a decision table: ArrowGlacier → bomb delay 10 700 000, London → 9 700 000, otherwise the legacy calculator. NOT decided: equality of the difficulty / base-fee / cache-size FORMULAS with the Ethereum specification for every input (big-integer arithmetic; outside this technique).",
-		Run: runC28,
+		Explain:   "Decides ONLY the rejection clause 'a header that violates any of them is rejected': in eth.SyncBlockHeader the header store is dominated by the timestamp, extra-data size, gas-cap, gasUsed<=gasLimit, gas-limit/EIP-1559, difficulty (expected.Cmp(header.Difficulty)==0) and proof-of-work seal checks; VerifyGaslimit returns nil only under |parent−header| < parent/GasLimitBoundDivisor and header >= MinGasLimit; VerifyEip1559Header only under VerifyGaslimit err==nil (with the elasticity multiplier applied exactly when the parent is pre-London), BaseFee != nil and BaseFee.Cmp(CalcBaseFee(parent)) == 0; the seal check verifyHeader fails unless the ethash result is within the target and the mix digest matches. The era dispatch is extracted as a decision table: ArrowGlacier → bomb delay 10 700 000, London → 9 700 000, otherwise the legacy calculator. NOT decided: equality of the difficulty / base-fee / cache-size FORMULAS with the Ethereum specification for every input (big-integer arithmetic; outside this technique).",
+		Run:       runC28,
 	})
 }
 
@@ -620,14 +620,15 @@ func runC28(c *core.Ctx) {
 	if f := c.Fn(pkEthHS, "VerifyGaslimit"); f != nil {
 		succ := ir.SuccessSinks(f)
 		eng.Dominates(c, "C28.gaslimit", f, cmpGuard("|parent−header| < parent/GasLimitBoundDivisor", func(b *ssa.BinOp) (bool, bool) {
-			if b.Op != token.GEQ {
+			// `diff >= limit` fails / `diff < limit` passes; limit may be named or written inline
+			if b.Op != token.GEQ && b.Op != token.LSS {
 				return false, false
 			}
-			d, ok := b.Y.(*ssa.BinOp)
+			d, ok := ir.Strip(b.Y).(*ssa.BinOp)
 			if !ok || d.Op != token.QUO {
 				return false, false
 			}
-			return true, false
+			return true, b.Op == token.LSS
 		}), succ, "nil return", nil)
 		eng.Dominates(c, "C28.gaslimit", f, cmpGuard("headerGasLimit >= MinGasLimit", func(b *ssa.BinOp) (bool, bool) {
 			if b.Op == token.LSS && paramNamed("headerGasLimit")(b.X) {
